@@ -1373,6 +1373,7 @@ class Gen(object):
       caught += [x.strip() for x in t_.strip('()').split(',')]
     if 'E1' in caught and 'E3' not in caught:
       caught.append('E3')   # E3 subclasses E1
+    try_start = len(lines)
     if has_fin:
       lines.append('%stryin(%d)' % (sp, k))
     lines.append('%stry:' % sp)
@@ -1401,7 +1402,22 @@ class Gen(object):
           self.note('handler_if_uses_exception_variable')
           lines.append('%s  if len(ex.args) %s %d:' % (sp, self.choice(['==', '<', '!=']), self.integer(0, 2)))
           lines.append('%s    t(len(ex.args))' % sp)
+      h_start = len(lines)
       outs.append(self.handler_block(henv, ind + 1, lines, has_fin))
+      if self.excl('no_handler_only_binding'):
+        # F30 again: names of every kind (function names, holders, containers, loop targets) that the handler
+        # binds and that are unbound at try entry are bound before the try as well
+        pre = self.prebind_for_handler(lines[h_start:], env)
+        if pre:
+          self.note('excluded:no_handler_only_binding')
+          add = []
+          for n in pre:
+            if n in self.cfg['fn_names'] or n == 'g0':
+              add += ['%sdef %s(q):' % (sp, n), '%s  return q' % sp]
+            else:
+              add.append('%s%s = 0' % (sp, n))
+          lines[try_start:try_start] = add
+          try_start += len(add)
     if nh and out is not None and self.chance(20):
       if self.excl('no_try_else'):
         self.note('excluded:no_try_else')
@@ -1437,6 +1453,33 @@ class Gen(object):
     assigned = self.assign_stack.pop()
     self.mark(*assigned)
     return j
+
+  def prebind_for_handler(self, hlines, env):
+    """Names bound somewhere in the handler text (not inside nested defs) that are unbound at try entry."""
+    import ast as _ast
+    import textwrap as _tw
+    try:
+      tree = _ast.parse(_tw.dedent('\n'.join(hlines)))
+    except SyntaxError:
+      return []
+    found = []
+
+    def walk(node):
+      for c in _ast.iter_child_nodes(node):
+        if isinstance(c, (_ast.FunctionDef, _ast.Lambda, _ast.ClassDef)):
+          if isinstance(c, _ast.FunctionDef):
+            found.append(c.name)
+          continue
+        if isinstance(c, _ast.Name) and isinstance(c.ctx, _ast.Store):
+          found.append(c.id)
+        walk(c)
+    walk(tree)
+    skip = set(env.bound) | set(env.readonly) | set(env.declared) | {'ex', 'z'}
+    out = []
+    for n in found:
+      if n not in skip and n not in out:
+        out.append(n)
+    return out
 
   def handler_block(self, env, ind, lines, has_fin):
     if not env.jump_ok:
